@@ -61,6 +61,50 @@ def ready_scenarios(rng, thorough):
     return scs
 
 
+RACE_CFG = """SPECIFICATION Spec
+CONSTANTS
+  Ops <- %s
+  InitRec = %s
+  Deviations = {%s}
+INVARIANTS InterestExact NoSpuriousFailure OutcomeExact
+CHECK_DEADLOCK FALSE
+"""
+RACE_OPS = {"OpsAddAdd": ("addR", "addW"), "OpsDelAdd": ("delW", "addR"), "OpsDelDel": ("delR", "delW"), "OpsSame": ("addR", "addR")}
+# the starting registrations from which the unlocked variant goes wrong (found by the sweep below; asserted there)
+RACE_BAD = {("OpsAddAdd", ""), ("OpsDelAdd", "W"), ("OpsDelDel", "RW"), ("OpsSame", "")}
+
+
+def race_stage(tier, cov):
+    """SelectorRace.tla: two operations on one descriptor's interest at the same time, every pair of kinds from every
+    starting registration - the intended design (one critical section) must hold, the unlocked variant must be refuted
+    exactly where the sweep says it goes wrong. Returns the scenarios for the real code."""
+    runs = cov.setdefault("mc_runs", [])
+    scs = []
+    for ops, (a, b) in sorted(RACE_OPS.items()):
+        for init in ("", "R", "W", "RW"):
+            iset = "{%s}" % ", ".join('"%s"' % c for c in init)
+            for dev in ("", "unlocked"):
+                name = "gen_race_%s_%s_%s_%d.cfg" % (ops, init or "none", dev or "design", os.getpid())
+                path = os.path.join(SPEC, name)
+                with open(path, "w") as f:
+                    f.write(RACE_CFG % (ops, iset, ('"%s"' % dev) if dev else ""))
+                try:
+                    r = tlc("MC_SelectorRace", name, workers=1, timeout=300)
+                finally:
+                    os.remove(path)
+                expect = "any" if (dev and (ops, init) in RACE_BAD) else None
+                require_mc_ok(r, "%s from {%s}%s" % (ops, init, " (unlocked)" if dev else ""), expect_violation=expect)
+                if not dev:
+                    cov["states"] = cov.get("states", 0) + r.distinct
+                    cov["transitions"] = cov.get("transitions", 0) + r.generated
+                runs.append({"module": "SelectorRace", "cfg": "%s from {%s} %s" % (ops, init, dev or "design"), "distinct": r.distinct,
+                             "generated": r.generated, "depth": r.depth, "expected_violation": (r.violated if expect else None), "wall_s": round(r.wall, 1)})
+            # both orders of the pair on the real code
+            for x, y in ((a, b), (b, a)):
+                scs.append({"kind": "race", "loops": 1, "a": x, "b": y, "init": list(init), "src": "race-%s" % ops, "shape": "race"})
+    return scs
+
+
 def run(pid, tier):
     v = Verdict(pid, tier)
     wd = workdir(pid)
@@ -89,6 +133,7 @@ def run(pid, tier):
             hs = [[o for o in h if o["op"] not in ("ready", "timeout")] for h in hs]
             cov["tlc_simulated_histories"] = cov.get("tlc_simulated_histories", 0) + len(hs)
             scs += [{"kind": "interest", "loops": loops, "hist": h, "src": "tlc-simulate"} for h in hs if h]
+        scs += race_stage(tier, cov) * (3 if thorough else 1)
     else:
         scs = ready_scenarios(rng, thorough)
     for i, s in enumerate(scs):
